@@ -328,6 +328,19 @@ func Gen(o Options) *Program {
 	if o.CapsWords && simrt.Flip("prog.caps-words", 0.15) {
 		p.addCapsWords()
 	}
+	if o.CapsWords && o.Exceptions && simrt.Flip("prog.error-field", 0.1) {
+		// a field called "error" is special in an exception only; here it sits in a plain struct
+		// (or among a function's arguments) while some other file may define exceptions
+		f := p.Files[ch("prog.error-field-file", len(p.Files))]
+		fd := &FieldDef{ID: 1, Name: "error", Req: ReqOptional, Type: &TypeRef{Base: "string"}}
+		if ch("prog.error-field-site", 2) == 0 {
+			p.add(f, &Def{Kind: KStruct, Name: p.name("S"), Fields: []*FieldDef{fd}})
+		} else {
+			p.add(f, &Def{Kind: KService, Name: p.name("Svc"), Funcs: []*Func{{Name: fmt.Sprintf("fn%d_report", p.seq), Args: []*FieldDef{fd}}}})
+		}
+		g := p.Files[ch("prog.error-exception-file", len(p.Files))]
+		p.add(g, &Def{Kind: KException, Name: p.name("X"), Fields: []*FieldDef{{ID: 1, Name: "why1", Req: ReqOptional, Type: &TypeRef{Base: "string"}}}})
+	}
 	if o.Invalid && simrt.Flip("prog.invalid", 0.15) {
 		p.injectInvalid()
 	}
@@ -836,7 +849,32 @@ func (p *Program) retarget(f *File, d *Def, text string, to *Def) {
 // injectInvalid makes the program uncompilable in one place.
 func (p *Program) injectInvalid() {
 	f := p.Files[ch("invalid.file", len(p.Files))]
-	switch ch("invalid.kind", 16) {
+	switch ch("invalid.kind", 17) {
+	case 16:
+		// a definition that carries the name of one of the file's includes
+		var incl []*File
+		for _, g := range p.Files {
+			if len(g.Includes) > 0 {
+				incl = append(incl, g)
+			}
+		}
+		if len(incl) > 0 {
+			g := incl[ch("invalid.clash-file", len(incl))]
+			name := p.Files[g.Includes[ch("invalid.clash-include", len(g.Includes))]].Base
+			switch ch("invalid.clash-kind", 4) {
+			case 0:
+				p.add(g, &Def{Kind: KEnum, Name: name, Items: []EnumItem{{Name: "LIMIT", Value: 0}}})
+			case 1:
+				p.add(g, &Def{Kind: KStruct, Name: name, Fields: []*FieldDef{{ID: 1, Name: "x", Req: ReqOptional, Type: &TypeRef{Base: "i32"}}}})
+			case 2:
+				p.add(g, &Def{Kind: KTypedef, Name: name, Type: &TypeRef{Base: "string"}})
+			default:
+				p.add(g, &Def{Kind: KConst, Name: name, Type: &TypeRef{Base: "i32"}, Value: &ConstVal{Kind: CInt, Int: 3}})
+			}
+			p.Invalid = "a definition of " + g.RelPath() + " is named like its include " + name
+			return
+		}
+		fallthrough
 	case 15:
 		// an enum item spelled in another case: names are case sensitive, no item is meant
 		e := p.add(f, &Def{Kind: KEnum, Name: p.name("E"), Items: []EnumItem{{Name: "RED", Value: 0}, {Name: "Green", Value: 1}, {Name: "blue", Value: 2}}})
